@@ -1,9 +1,11 @@
 """C19 — dsDNA completion adds the antiparallel Watson-Crick complement.
 
 Implementation side: real `MetaMolecule` objects built by the real sequence parsers (.fasta, .ig linear
-and circular, monomer lists), real `complement_dsDNA`.  Model side: `Dna.strandGraph`, `Dna.complement`
-(mirrors the code) and `Dna.specGraph` (the property's own statement, evaluated with the Watson-Crick
-pairing written in the property, not with the repository's table).
+and circular, monomer lists, .json with node keys starting at 0/1/4/7), real `complement_dsDNA`.
+Model side: `Dna.strandGraphFrom first`, `Dna.complement` (mirrors the code) and `Dna.specGraphFrom first`
+(the property's own statement, evaluated with the Watson-Crick pairing written in the property, not with
+the repository's table); `first` is the real key of the first residue — no key normalisation, the
+implementation, the model and the specification are compared on the true node keys.
 """
 import os
 import tempfile
@@ -12,7 +14,7 @@ import pathlib
 import common
 
 BASES = "ACGT"
-RULE = ("random DNA strands built by the real parsers (fasta / ig linear / ig circular / monomer list / json with node keys starting at 0, 1, 4, 7; keys are normalised to start at 0 before comparing), "
+RULE = ("random DNA strands built by the real parsers (fasta / ig linear / ig circular / monomer list / json with node keys starting at 0, 1, 4, 7, compared on the true keys), "
         "length 1..12 quick, up to 200 thorough, random edge attribute dicts; plus a malformed stream with "
         "one unknown residue name; a case is non-trivial when n >= 2; distinct = (kind, sequence, labels)")
 
@@ -106,14 +108,6 @@ def strand_request(meta):
     return names, labels, circ
 
 
-def shift_graph(cgraph, off):
-    """node keys are arbitrary labels: bring a canonical graph whose keys start at `off` to keys from 0"""
-    if not off:
-        return cgraph
-    return dict(nodes=[[n[0] - off] + list(n[1:]) for n in cgraph["nodes"]],
-                edges=sorted([min(e[0] - off, e[1] - off), max(e[0] - off, e[1] - off), e[2]] for e in cgraph["edges"]))
-
-
 def random_labels(rng, meta):
     for u, v in list(meta.edges):
         roll = rng.random()
@@ -135,18 +129,20 @@ def one_case(ctx, kind, letters, label_seed, unknown_at=None):
         key = list(meta.nodes)[unknown_at]
         meta.nodes[key]["resname"] = "XY" + meta.nodes[key]["resname"]
     names, labels, circ = strand_request(meta)
-    off = list(meta.nodes)[0] if len(meta.nodes) else 0
-    before = shift_graph(canon_graph(meta), off)
-    adj_before = {k - off: [x - off for x in v] for k, v in adjacency(meta).items()}
+    # the REAL node keys go to the model and the specification (`first` = key of the first residue;
+    # theorems C19_complement_offset / C19_reject_offset cover every first key)
+    first = int(list(meta.nodes)[0]) if len(meta.nodes) else 0
+    before = canon_graph(meta)
+    adj_before = adjacency(meta)
     max_resid = meta.max_resid
     try:
         out = complement_dsDNA(meta)
-        impl = dict(ok=True, graph=shift_graph(canon_graph(out), off))
+        impl = dict(ok=True, graph=canon_graph(out))
     except Exception as err:  # pylint: disable=broad-except
         impl = dict(ok=False, err=type(err).__name__)
     replay = dict(kind=kind, letters=letters, label_seed=label_seed, unknown_at=unknown_at)
-    reqs = [dict(op="strand", names=names, labels=labels, circ=circ),
-            dict(op="spec", names=names, labels=labels, circ=circ)]
+    reqs = [dict(op="strand", names=names, labels=labels, circ=circ, first=first),
+            dict(op="spec", names=names, labels=labels, circ=circ, first=first)]
     return dict(replay=replay, names=names, labels=labels, circ=circ, before=before, adj=adj_before,
                 max_resid=max_resid, impl=impl, reqs=reqs)
 
